@@ -117,6 +117,13 @@ def mk_doc(ctx: Ctx, allow: set[str]):
             for meth, op in item.items():
                 if isinstance(op, dict) and "tags" in op and rng.random() < 0.6:
                     op["tags"] = list(rng.choice(TAG_VARIANTS))
+                    if rng.random() < 0.3:
+                        # one operation listing two spellings of the same tag (word splits differ); any order
+                        pair = list(rng.choice([["datasources", "DataSources"], ["petstore", "petStore"], ["user_admin", "User Admin", "useradmin"],
+                                                ["data_sources", "datasources"], ["PETS", "pets"]]))
+                        rng.shuffle(pair)
+                        op["tags"] = pair
+                        d.features.add("one_operation_two_tag_spellings")
         d.features.add("tag_spelling_variants")
     return d
 
